@@ -103,10 +103,13 @@ def strategy(tier):
         st.integers(0, 255), st.integers(0, 255), name, st.integers(0, 255), st.integers(0, 255))
     length = st.one_of(st.integers(1, 1024), st.sampled_from([1, 38, 39, 40, 78, 117, 273, 1024]))
     ver8 = st.tuples(st.integers(0, 65535), st.integers(0, 255), st.integers(0, 255)).map(list)
-    b = st.builds(lambda blk, s, ln, full, en, co, eager: dict({"part": "B", "block": blk, "start": s, "len": ln, "handshake": full}, **({"en": en, "co": co} if full else {}),
-                                                                **({"eager": eager} if full and eager else {})),
+    fault = st.sampled_from([None, None, None, "lose", "lose", "rel"])
+    b = st.builds(lambda blk, s, ln, full, en, co, eager, seg, fl, fa: dict(
+                      {"part": "B", "block": blk, "start": s, "len": ln, "handshake": full}, **({"en": en, "co": co} if full else {}),
+                      **({"eager": eager} if full and eager else {}), **({"seg": seg} if not full and seg != 39 else {}),
+                      **({"lose_seg": 1 + fa % 25} if full and fl == "lose" else {}), **({"rel": [[0.9, 0.8, 0.7][fa % 3], fa]} if full and fl == "rel" else {})),
                   _block_strategy(), st.one_of(st.just(0), st.integers(0, 1023)), length, st.sampled_from([False, False, False, True]), ver8, ver8,
-                  st.sampled_from([0, 0, 3, 10, 40]))
+                  st.sampled_from([0, 0, 3, 10, 40]), st.sampled_from([39, 39, 64, 100, 160, 255]), fault, st.integers(0, 10**6))
     return st.one_of(a, b, b)
 
 
@@ -296,13 +299,49 @@ def _part_b(res, case):
     co = [int(x) for x in case.get("co", [89, 11, 0])]
     sim = vworld.make_simulator(_fake_snapshot(block, en=en, co=co))
     sim.structure.set_status_block(block)
+    seg = int(case.get("seg", 39)) if not full else 39
+    if seg not in (39, 64, 100, 160, 255):
+        raise InvalidCase(case)
+    sim._STATUS_BLOCK_SEGMENT_SIZE = seg      # the length byte of a segment allows up to 255 data bytes
     eng = stepped.Engine()
     chain = None
+    faulty = False
+    import geckolib.utils.simulator as simmod
+    import random as _random
+    saved_random = simmod.random
+    if full and case.get("lose_seg"):
+        # one segment of the first status answer is lost on the way: the client's own retry must still end with the spa's block
+        faulty = True
+        k_lost = 1 + int(case["lose_seg"]) % 25
+
+        class _Pol:
+            done = False
+
+            def c2s(self, data):
+                return None
+
+            def s2c(self, data, i, n):
+                if not self.done and b"<DATAS>STATV" in data and i == k_lost and n > k_lost + 1:
+                    self.done = True
+                    return "drop"
+                return None
+        eng.policy = _Pol()
+    if full and case.get("rel"):
+        # the simulator's own reliability knob (seeded draw): it skips single segments / whole requests itself
+        faulty = True
+        simmod.random = _random.Random(int(case["rel"][1]))
+        sim._reliability = float(case["rel"][0])
     with eng.patched():
         with _Capture() as cap:
             if full:
-                spa, ok = stepped.connect_threaded_spa(eng, sim, eager=int(case.get("eager", 0)))
+                try:
+                    spa, ok = stepped.connect_threaded_spa(eng, sim, eager=int(case.get("eager", 0)))
+                finally:
+                    simmod.random = saved_random
+                    sim._reliability = 1.0
                 if not ok:
+                    if faulty:
+                        return block, 0      # a lossy handshake may fail; only a "successful" one with wrong contents is judged here
                     raise SetupFailed("fault-free blocking handshake did not complete")
             else:
                 logging.getLogger("geckolib.spa").info("Starting spa connection handshake...")
@@ -357,6 +396,8 @@ def _part_b(res, case):
                                  f"snapshot command and parse it is {'<a different block>' if what == 'bytes' else repr(got)}")
     text = cap.text()
     nseg = sum(1 for ln in cap.lines if "<DATAS>STATV" in ln)
+    if faulty:
+        return block, nseg      # (a raw log that contains a repeated transfer is not required to reassemble; the chain above is)
     snaps = _parse_text(res, text, "traffic")
     if snaps is None:
         return block, nseg
@@ -378,8 +419,8 @@ def _part_b(res, case):
             if got_ != exp_:
                 res.fail(f"C19|traffic|{what}", f"connection log of a handshake with a spa reporting {what} = {exp_!r} parses to {got_!r}")
     # the simulator serves whole 39-byte segments: the transferred bytes are the segments' payloads
-    nfull = -(-length // 39)
-    exp = b"".join(block[start + i * 39: start + i * 39 + min(39, 1024 - (start + i * 39))] for i in range(nfull))
+    nfull = -(-length // seg)
+    exp = b"".join(block[start + i * seg: start + i * seg + min(seg, 1024 - (start + i * seg))] for i in range(nfull))
     got = conns[0].bytes
     if got != exp:
         diff = [i for i in range(min(len(got), len(exp))) if got[i] != exp[i]][:5]
